@@ -74,9 +74,16 @@ class Sim:
         self.all_uids = {}     # uid -> dict(name, due, internal, consumed_at)
 
     # ---- environment operations
-    def queue(self, name, delay=None):
+    def queue(self, name, delay=None, as_meta=False):
         self.next_uid += 1
         uid = self.next_uid
+        if as_meta:
+            # a MetaEvent instance handed to queue() (what `source.attach(monitor.queue)` does) is an external event
+            ev_ = MetaEvent(name, uid=uid) if delay is None else MetaEvent(name, uid=uid, delay=delay)
+            self.it.queue(ev_)
+            due = self.lastT if delay is None else self.lastT + F(delay)
+            self.expect_external(uid, name, due)
+            return uid
         # both documented calling conventions: an Event instance, or a name with keyword parameters
         by_name = uid % 2 == 0
         if delay is None:
